@@ -5,6 +5,7 @@
   construction.  The no-panic theorem holds for every buffer that opens.
 -/
 import SplProofs.Lemmas.TlvRefine
+import SplProofs.Lemmas.TlvTotal
 import SplProofs.C02
 
 namespace C04
@@ -238,5 +239,75 @@ theorem C04_no_panic (d : Bytes) (h : unpack d = .ok ()) (t : Bytes) (h8 : t.len
           · split
             · simp
             · split <;> simp
+
+/-- Writes through the mutable views and variable-length packs never panic — on every byte string. -/
+theorem C04_write_no_panic (d t v : Bytes) (r : Nat) :
+    (writeValue d t r v).2 ≠ .panic ∧ (packVarLen d t r v).2 ≠ .panic := by
+  have hnp := (C02.C02_total d t r 0).2.2.1
+  constructor
+  · unfold writeValue
+    cases hg : getBytes d t r with
+    | panic => exact absurd hg hnp
+    | err e => simp
+    | ok p =>
+      obtain ⟨lo, hi⟩ := p
+      simp only
+      have ⟨h1, h2⟩ := getBytes_ok_range d t r lo hi hg
+      split
+      · simp
+      · rename_i hne
+        have hv : hi - lo = v.length := by
+          by_cases hh : hi - lo = v.length
+          · exact hh
+          · exact absurd hh (by simpa using hne)
+        obtain ⟨d1, hw⟩ := writeAt_fits d lo v (by omega)
+        rw [hw]; simp
+  · unfold packVarLen
+    cases hg : getBytes d t r with
+    | panic => exact absurd hg hnp
+    | err e => simp
+    | ok p =>
+      obtain ⟨lo, hi⟩ := p
+      simp only
+      have ⟨h1, h2⟩ := getBytes_ok_range d t r lo hi hg
+      obtain ⟨d1, hw⟩ := writeAt_fits d lo (v.take (hi - lo)) (by simp [List.length_take]; omega)
+      rw [hw]; simp only
+      split <;> simp
+
+/-- initialise-with-default and allocate-and-pack never panic on a buffer that opens. -/
+theorem C04_init_no_panic (d : Bytes) (h : unpack d = .ok ()) (t : Bytes) (h8 : t.length = 8)
+    (hne : t ≠ uninit) (v : Bytes) (allowRep : Bool) :
+    (initValue d t v allowRep).2 ≠ .panic ∧ (allocAndPack d t v allowRep).2 ≠ .panic := by
+  have ha := (C04_no_panic d h t h8 hne v.length 0 allowRep).1
+  constructor
+  · unfold initValue
+    cases hx : alloc d t v.length allowRep with
+    | mk d1 res =>
+      rw [hx] at ha
+      cases res with
+      | panic => exact absurd rfl ha
+      | err e => simp
+      | ok p =>
+        obtain ⟨⟨lo, hi⟩, rep⟩ := p
+        have ⟨e1, e2⟩ := alloc_ok_range d t v.length allowRep d1 lo hi rep hx
+        obtain ⟨d2, hw⟩ := writeAt_fits d1 lo v (by omega)
+        simp only [hw]; simp
+  · unfold allocAndPack
+    cases hx : alloc d t v.length allowRep with
+    | mk d1 res =>
+      rw [hx] at ha
+      cases res with
+      | panic => exact absurd rfl ha
+      | err e => simp
+      | ok p =>
+        obtain ⟨⟨lo, hi⟩, rep⟩ := p
+        have ⟨e1, e2⟩ := alloc_ok_range d t v.length allowRep d1 lo hi rep hx
+        obtain ⟨d2, hw⟩ := writeAt_fits d1 lo v (by omega)
+        simp only [hw]; simp
+
+/-! non-vacuity: the hypotheses of the theorems above are met by concrete non-trivial buffers -/
+example : (alloc (zeros 20) [1,1,1,1,1,1,1,1] 9 false).2.isErr = true ∧ unpack (zeros 20) = .ok () := by decide
+example : (realloc (Tlv.encS ⟨[⟨[1,1,1,1,1,1,1,1], [7, 8]⟩, ⟨[1,1,1,1,1,1,1,2], [9]⟩], 3⟩) [1,1,1,1,1,1,1,1] 6 0).2.isErr = true := by decide
+example : (packVarLen (Tlv.encS ⟨[⟨[1,1,1,1,1,1,1,1], [7, 8]⟩, ⟨[1,1,1,1,1,1,1,2], [9]⟩], 3⟩) [1,1,1,1,1,1,1,1] 0 [1, 2, 3]).2.isErr = true := by decide
 
 end C04
